@@ -258,21 +258,22 @@ Exec(m, p, s) ==
          ELSE IF r.v.n # 0 THEN [m1 EXCEPT !.pc = Into(p, 1)]
          ELSE IF s.el # <<>> THEN [m1 EXCEPT !.pc = Into(p, 2)]
          ELSE [m1 EXCEPT !.pc = LineStart(IF p.ln = Direct THEN PastEnd ELSE NextLine(m.lst, p.ln))]
-    [] s.k = "for" ->
+    [] s.k = "for1" ->
          \* x, then y, then z, each evaluated once; the first pass always runs
          LET ra == EvalTop(s.a, St(m)) IN
          IF IsBad(ra.v) THEN Fail([m EXCEPT !.dims = ra.d], p, ra.v)
          ELSE LET w == Store([m EXCEPT !.dims = ra.d], s.v, ra.v) IN
-              IF ~w.ok THEN Fail(w.m, p, w.v)
-              ELSE LET rb == EvalTop(s.b, St(w.m)) IN
-                   IF IsBad(rb.v) THEN Fail([w.m EXCEPT !.dims = rb.d], p, rb.v)
-                   ELSE LET m2 == [w.m EXCEPT !.dims = rb.d]
-                            rc == EvalTop(s.c, St(m2)) IN
-                        IF IsBad(rc.v) THEN Fail([m2 EXCEPT !.dims = rc.d], p, rc.v)
-                        ELSE Push([m2 EXCEPT !.dims = rc.d], p,
-                                  [k |-> "for", key |-> Key(s.v.l, s.v.id, s.v.sfx, <<>>), node |-> s.v,
-                                   lim |-> rb.v, step |-> rc.v, body |-> Adv(p), ln |-> p.ln],
-                                  Adv(p))
+              IF ~w.ok THEN Fail(w.m, p, w.v) ELSE [w.m EXCEPT !.pc = Adv(p)]
+    [] s.k = "for2" ->
+         LET rb == EvalTop(s.b, St(m)) IN
+         IF IsBad(rb.v) THEN Fail([m EXCEPT !.dims = rb.d], p, rb.v)
+         ELSE LET m2 == [m EXCEPT !.dims = rb.d]
+                  rc == EvalTop(s.c, St(m2)) IN
+              IF IsBad(rc.v) THEN Fail([m2 EXCEPT !.dims = rc.d], p, rc.v)
+              ELSE Push([m2 EXCEPT !.dims = rc.d], p,
+                        [k |-> "for", key |-> Key(s.v.l, s.v.id, s.v.sfx, <<>>), node |-> s.v,
+                         lim |-> rb.v, step |-> rc.v, body |-> Adv(p), ln |-> p.ln],
+                        Adv(p))
     [] s.k = "next" ->
          LET r == PopToFor(m.ctl, s.any, IF s.any THEN <<>> ELSE Key(s.v.l, s.v.id, s.v.sfx, <<>>)) IN
          IF ~r.found THEN Fail([m EXCEPT !.ctl = r.ctl], p, Err(ENextWithoutFor))
